@@ -20,7 +20,8 @@ EXTENDS Integers, Sequences, FiniteSets, TLC
 
 CONSTANTS Sizes,            \* sequence of body lengths of the frames the sender writes, in order
           Cuts,             \* which read lengths the environment may choose (set of positive integers; "all" = 0)
-          PersistentReader
+          PersistentReader,
+          BreakAllowed      \* the connection may be reset after any number of bytes (C14)
 
 Prefix == 4
 FrameLen(i) == Prefix + Sizes[i]
@@ -33,34 +34,41 @@ VARIABLES written,   \* frames written by the sender so far
           need,      \* "len" | "body" : what the parser waits for
           cur,       \* index of the frame being parsed (by stream position)
           delivered, \* sequence of frame indices handed to the system
-          reads      \* history: stream offsets at which the Reads ended (the schedule for the replay)
-vars == <<written, taken, buffered, lost, need, cur, delivered, reads>>
+          reads,     \* history: stream offsets at which the Reads ended (the schedule for the replay)
+          broken     \* the connection has been reset: no further Read succeeds
+vars == <<written, taken, buffered, lost, need, cur, delivered, reads, broken>>
 
 Wire == IF written = 0 THEN 0 ELSE StartOf(written) + FrameLen(written)
 
-Init == written = 0 /\ taken = 0 /\ buffered = 0 /\ lost = 0 /\ need = "len" /\ cur = 1 /\ delivered = <<>> /\ reads = <<>>
+Init == written = 0 /\ taken = 0 /\ buffered = 0 /\ lost = 0 /\ need = "len" /\ cur = 1 /\ delivered = <<>> /\ reads = <<>> /\ broken = FALSE
 
 \* the sender writes its next frame with one Write call
 Write == /\ written < Len(Sizes) /\ written' = written + 1
          /\ reads' = Append(reads, [op |-> "w", at |-> written + 1])
-         /\ UNCHANGED <<taken, buffered, lost, need, cur, delivered>>
+         /\ ~broken
+         /\ UNCHANGED <<taken, buffered, lost, need, cur, delivered, broken>>
+
+\* the connection is reset: the bytes read so far are all the reader will ever get
+Break == /\ BreakAllowed /\ ~broken /\ broken' = TRUE
+         /\ reads' = Append(reads, [op |-> "x", at |-> taken])
+         /\ UNCHANGED <<written, taken, buffered, lost, need, cur, delivered>>
 
 Needed == IF need = "len" THEN Prefix ELSE Sizes[cur]
 
 \* the reader needs more bytes than it has buffered: one conn.Read returns k bytes
 Read(k) ==
-    /\ lost = 0 /\ cur <= Len(Sizes)
+    /\ lost = 0 /\ cur <= Len(Sizes) /\ ~broken
     /\ buffered < Needed
     /\ Wire - taken > 0
     /\ LET n == IF k = 0 \/ k > Wire - taken THEN Wire - taken ELSE k IN
          /\ taken' = taken + n /\ buffered' = buffered + n
          /\ reads' = Append(reads, [op |-> "r", at |-> taken + n])
-    /\ UNCHANGED <<written, lost, need, cur, delivered>>
+    /\ UNCHANGED <<written, lost, need, cur, delivered, broken>>
 
 \* enough bytes: parse the length prefix, then the body; the frame is decoded and delivered
 ParseLen == /\ lost = 0 /\ need = "len" /\ buffered >= Prefix /\ cur <= Len(Sizes)
             /\ buffered' = buffered - Prefix /\ need' = "body"
-            /\ UNCHANGED <<written, taken, lost, cur, delivered, reads>>
+            /\ UNCHANGED <<written, taken, lost, cur, delivered, reads, broken>>
 ParseBody ==
     /\ lost = 0 /\ need = "body" /\ buffered >= Sizes[cur]
     /\ delivered' = Append(delivered, cur)
@@ -68,14 +76,16 @@ ParseBody ==
     /\ LET rest == buffered - Sizes[cur] IN
          IF PersistentReader THEN buffered' = rest /\ lost' = lost
          ELSE buffered' = 0 /\ lost' = lost + rest        \* the next turn creates a fresh bufio.Reader
-    /\ UNCHANGED <<written, taken, reads>>
+    /\ UNCHANGED <<written, taken, reads, broken>>
 
-Next == Write \/ (\E k \in Cuts : Read(k)) \/ ParseLen \/ ParseBody
+Next == Write \/ (\E k \in Cuts : Read(k)) \/ ParseLen \/ ParseBody \/ Break
 Spec == Init /\ [][Next]_vars /\ WF_vars(Next)
 
 \* the property on the model
 NothingLost == lost = 0
 InOrderOnce == \A i \in 1..Len(delivered) : delivered[i] = i
-AllDelivered == <>(Len(delivered) = Len(Sizes))
-Done == Len(delivered) = Len(Sizes) \/ lost > 0
+AllDelivered == <>(Len(delivered) = Len(Sizes) \/ broken)
+\* under a reset: exactly the frames that arrived completely are delivered - a prefix, nothing partial
+CompleteFramesOnly == broken => \A i \in 1..Len(delivered) : StartOf(delivered[i]) + FrameLen(delivered[i]) <= taken
+Done == Len(delivered) = Len(Sizes) \/ lost > 0 \/ (broken /\ ~ENABLED ParseLen /\ ~ENABLED ParseBody)
 =============================================================================
